@@ -34,7 +34,7 @@ TECHNIQUE = "regular-language equality on automata (exact) + bounded-exhaustive 
 LEVEL_TEXT = (
     "The language accepted by the string parser is proved equal to the grammar of the property (automata, all strings, witnesses on failure); within a "
     "bounded family (<=2 inputs, <=2 outputs, <=2 pairs, adversarial names) parse, print and re-parse are interpreted abstractly and are mutually inverse; "
-    "Annotated hints denote the same signature as their string and malformed hints are refused; equivalence, interpreted with opaque names on all pairs of "
+    "Annotated hints (read with their extras; empty annotation = `()`) denote the same signature as their string and malformed hints are refused; both alternative constructors fill the four slots of the signature object in the right order; equivalence, interpreted with opaque names on all pairs of "
     "bounded shapes, holds exactly for consistent renamings and never iterates a set. The unbounded round-trip claim rests on the bounded family plus the "
     "token-aligned extraction pattern."
 )
